@@ -328,6 +328,12 @@ def run_pt(sc, sched, canonical=False, want_trace=False):
                     if x_shared is None:
                         x_shared = x0
                     x0 = x_shared.copy()
+                elif d >= 2 and (sc["seed"] >> 5) % 3 == 0:
+                    # start points that agree in their first coordinate only (a shared, well-known parameter value)
+                    if x_shared is None:
+                        x_shared = x0
+                        stats["fault_starts_share_one_coordinate"] += 1
+                    x0[0] = x_shared[0]
                 moat_start = sc["target"]["kind"] == "moat" and k == (sc["seed"] % N)
                 if moat_start:
                     x0[0] = 0.5 * (tg.a + tg.b)  # this chain starts inside the zero-probability moat (L = -inf)
